@@ -66,6 +66,28 @@ def violTraversal (route : Route) (dt : Nat) (exp rem : Route) (km : Rat) (cellK
    | some a => if a.start == a.stop then ["C06/no-progress| partial traversal snapped back to the start cell of the link: the vehicle does not advance"] else []
    | none => []) ++
   (if ratClose km (exp.foldl (fun a l => a + l.dist) 0) then [] else ["C06/odometer| booked distance differs from the driven links"]) ++
+  -- a step whose time is used up exactly at a junction ends there: no zero-length piece of the next
+  -- link is "driven" with no time left (this is not the sub-cell loss F16, where time is left)
+  (match exp.getLast? with
+   | some a =>
+     let before : Int := exp.dropLast.foldl (fun t x => t + x.travelTime) 0
+     if a.start == a.stop && exp.length > 1 && decide ((dt : Int) - before ≤ 0) then
+       [s!"C06/boundary-piece| the step's {dt} s were used up at the end of the previous link, yet a zero-length piece of link {a.id} is counted as driven"]
+     else []
+   | none => []) ++
+  -- a link of the remaining route that has not been touched keeps its length
+  (match rem.head? with
+   | some b =>
+     match route.find? (fun l => l.id == b.id) with
+     | some l =>
+       let untouched := match exp.getLast? with
+         | some a => a.id != b.id        -- the step ended at the junction before it: it was not split
+         | none => true
+       if untouched && b.start == l.start && b.stop == l.stop && !ratClose b.dist l.dist then
+         [s!"C06/remaining-length| link {b.id} has not been driven on, but in the remaining route it is {Val.show (.q b.dist)} km long instead of {Val.show (.q l.dist)} km"]
+       else []
+     | none => []
+   | none => []) ++
   -- a link whose whole-second travel time fits in what is left of the step is driven to its end
   -- and leaves the route: a zero-length piece of it kept on the route costs the vehicle one more
   -- step in the travelling activity after it has arrived
